@@ -1,7 +1,7 @@
 import Knut.Wire
 import Knut.GoSem.Syntax
 /-! Driver ops `gosemsyn …`: the primitives that `Knut/GoSem/Syntax.lean` adds for the translation of `lib/syntax/printer`
-(`RuneCountInString`, `Fmt.sW`, `Fmt.sStar`, `Strings.Join`, `Writer.Write`), evaluated for the differential stream `gosemsyn` of C11
+(`RuneCountInString`, `Fmt.sW`, `Strings.Join`, `Strings.Repeat`, `Writer.Write`), evaluated for the differential stream `gosemsyn` of C11
 (`harness/gosem_syn.go`), which compares each of them with the real Go primitive on byte strings that include invalid UTF-8. -/
 namespace Knut.Driver.GoSemSyn
 open Knut Knut.Wire Knut.GoSem
@@ -11,7 +11,7 @@ def bytesOf (s : String) : Option (List UInt8) :=
 
 def hexOf (bs : List UInt8) : String := if bs.isEmpty then "-" else hexBytes ⟨bs.toArray⟩
 
-/-- long outputs (a padding of 10^6 spaces) are compared by length, head and tail -/
+/-- long outputs are compared by length, head and tail -/
 def summary (bs : List UInt8) : String :=
   if bs.length ≤ 4096 then hexOf bs
   else s!"len={bs.length} head={hexOf (bs.take 32)} tail={hexOf (bs.drop (bs.length - 32))}"
@@ -29,9 +29,13 @@ def handle (fields : List String) : Option String :=
     match parseInt w, bytesOf s with
     | some w, some s => some (hexOf (Syn.Fmt.sW (minus == "1") w s))
     | _, _ => some "bad-op"
-  | ["gosemsyn", "sstar", minus, w, s] =>
-    match parseInt w, bytesOf s with
-    | some w, some s => some (summary (Syn.Fmt.sStar (minus == "1") w s))
+  | ["gosemsyn", "repeat", n, s] =>
+    match parseInt n, bytesOf s with
+    | some n, some s =>
+      match Syn.Strings.Repeat s n with
+      | .ok r => some ("ok " ++ summary r)
+      | .panic _ => some "panic"
+      | .outOfFuel => some "out-of-fuel"
     | _, _ => some "bad-op"
   | ["gosemsyn", "join", sep, ps] =>
     match bytesOf sep, parts ps with
@@ -51,10 +55,10 @@ def handle (fields : List String) : Option String :=
       some s!"{hexOf r.1} {r.2.1} {showErr r.2.2} calls=1"
     | _, _ => some "bad-op"
   | ["gosemsyn", "posting", pad, a, b, q, c] =>
-    -- the bytes the translator builds for `fmt.Fprintf(p, "%-*s %-*s %10s %s", pad, a, pad, b, q, c)`, written by one `Write`
+    -- the bytes the translator builds for `fmt.Fprintf(p, "%s %s %10s %s", a, b, q, c)`, written by one `Write`
     match parseInt pad, bytesOf a, bytesOf b, bytesOf q, bytesOf c with
-    | some pad, some a, some b, some q, some c =>
-      let line := Syn.Fmt.sStar true pad a ++ Syn.lit " " ++ Syn.Fmt.sStar true pad b ++ Syn.lit " " ++ Syn.Fmt.sW false (10 : Int) q ++
+    | some _, some a, some b, some q, some c =>
+      let line := Syn.Fmt.s a ++ Syn.lit " " ++ Syn.Fmt.s b ++ Syn.lit " " ++ Syn.Fmt.sW false (10 : Int) q ++
         Syn.lit " " ++ Syn.Fmt.s c
       let r := Syn.Writer.Write [] line (none : Option Unit)
       some s!"{hexOf r.1} {r.2.1} {showErr r.2.2} calls=1"
